@@ -154,6 +154,20 @@ def handle (op : String) (args : List String) (impl : String) : Option Verdict :
     if kind == "sub" then
       return retryVerdict "retryv2:sub" latest (fun l => subRetryMsgReady l h) (fun l => decide (h ≤ l)) s!"proc:{h}.{h}" impl
     return retryVerdict s!"retryv2:{kind}" latest (fun l => retryReady l h conf) (fun l => decide (conf ≤ l - h)) s!"proc:{h}.{h}" impl
+  | "evmretryreal", [latest, h, conf, faults] => some <| Id.run do
+    let some latest := parseHead latest | return bad
+    let some conf := conf.toInt? | return bad
+    let some h := h.toInt? | return bad
+    let some l := latest | return ⟨"reads=-;err", impl == "reads=-;err", "evmretryreal:rpc-error"⟩
+    let nf := (items faults ",").length
+    let ready := retryReady l h conf
+    let m := if !ready then "reads=-;err" else if nf > 0 then s!"reads={h}.{h};err" else s!"reads={h}.{h};proc:0"
+    -- property: the node is only ever asked for exactly the retried block, and only when that block is confirmed —
+    -- whatever kind of error a read fails with
+    let readsPart := ((impl.splitOn ";").headD "").drop 6
+    let reads := items readsPart.toString ","
+    let ok := reads.all (fun r => r == s!"{h}.{h}") && (reads.isEmpty || decide (conf ≤ l - h))
+    return ⟨m, ok, s!"evmretryreal:ready={ready}:faults={min nf 3}"⟩
   | "evmretrymsg", [latest, h, conf] => some <| Id.run do
     let some latest := parseHead latest | return bad
     let some conf := conf.toInt? | return bad
